@@ -47,6 +47,16 @@ fn instance(cities: usize, which: u8) -> TspP {
         }
         return TspP { n: cities, dist, instr: Instr::new() };
     }
+    if which == 4 {
+        // a finely scaled instance: distances of the order 1e17 (deposits of the order 1e-18)
+        let mut t = TspP::line(&(0..cities - 1).map(|i| 1.0 + (i % 3) as f64).collect::<Vec<_>>(), Instr::new());
+        for row in t.dist.iter_mut() {
+            for d in row.iter_mut() {
+                *d *= 1.0e17;
+            }
+        }
+        return t;
+    }
     if which == 3 {
         // a sparse road network (missing roads = infinite distance) in which city 0 has one road only: every tour is infeasible
         let mut t = TspP::line(&(0..cities - 1).map(|i| 1.0 + (i % 3) as f64).collect::<Vec<_>>(), Instr::new());
@@ -190,7 +200,8 @@ fn observer(c: AcoCase, data: Arc<Mutex<AcoData>>) -> StepObserver<TspP> {
                                 }
                             }
                         }
-                        let ok = (0..n).all(|i| (0..n).all(|j| i == j || (after[i][j] - r[i][j]).abs() <= 1e-12 * r[i][j].abs().max(1.0)));
+                        // relative to the trail's own magnitude (before or after): a trail of 1e-18 is compared as strictly as a trail of 1
+                        let ok = (0..n).all(|i| (0..n).all(|j| i == j || (after[i][j] - r[i][j]).abs() <= 1e-12 * r[i][j].abs().max(before[i][j].abs())));
                         last_ref = r;
                         if ok {
                             matched = true;
@@ -199,7 +210,7 @@ fn observer(c: AcoCase, data: Arc<Mutex<AcoData>>) -> StepObserver<TspP> {
                     }
                     if !matched {
                         // classify
-                        let sym = (0..n).all(|i| (0..n).all(|j| (after[i][j] - after[j][i]).abs() <= 1e-12 * after[i][j].abs().max(1.0)));
+                        let sym = (0..n).all(|i| (0..n).all(|j| (after[i][j] - after[j][i]).abs() <= 1e-12 * after[i][j].abs().max(after[j][i].abs())));
                         viol(
                             format!("C19 {} update {}", variant, if sym { "not-evaporate-then-deposit" } else { "asymmetric" }),
                             format!("{:?}: matrix before {:?}, tours (tour, length) {:?}, matrix after {:?}; evaporating every trail by {} and depositing 1/length on the consecutive edges of the rewarded tours gives {:?}", c, before, tours, after, c.evap, last_ref),
@@ -340,6 +351,16 @@ pub fn cases(thorough: bool) -> Vec<AcoCase> {
         v.push(AcoCase { cities: 4, instance: 2, ants, alpha, beta, evap: 0.1, bounds: None, default_pher: 1.0, decay: 1.0, long: false, via_template: true });
         v.push(AcoCase { cities: 4, instance: 2, ants, alpha, beta, evap: 0.1, bounds: Some((2.0, 0.5)), default_pher: 1.0, decay: 1.0, long: false, via_template: false });
     }
+    // deposits far below the machine epsilon on trails that start at zero: they are the whole trail (tiny decay coefficient, or a
+    // finely scaled instance); a narrow max-min band (the deposit exceeds max - min)
+    for n in [3usize, 4] {
+        v.push(AcoCase { cities: n, instance: 0, ants: 2, alpha: 1.0, beta: 1.0, evap: 0.1, bounds: None, default_pher: 0.0, decay: 1.0e-17, long: false, via_template: n == 3 });
+        v.push(AcoCase { cities: n, instance: 4, ants: 2, alpha: 1.0, beta: 0.0, evap: 0.1, bounds: None, default_pher: 0.0, decay: 1.0, long: false, via_template: n == 4 });
+        v.push(AcoCase { cities: n, instance: 4, ants: 1, alpha: 1.0, beta: 0.0, evap: 0.5, bounds: None, default_pher: 1.0e-18, decay: 1.0, long: true, via_template: true });
+        for (mx, mn, dp, evap) in [(2.0, 1.2, 1.5, 0.5), (1.0, 0.9, 1.0, 0.5), (0.5, 0.45, 0.45, 0.1)] {
+            v.push(AcoCase { cities: n, instance: 0, ants: 2, alpha: 1.0, beta: 1.0, evap, bounds: Some((mx, mn)), default_pher: dp, decay: 1.0, long: false, via_template: n == 3 });
+        }
+    }
     // every tour infeasible (infinite length): nothing to deposit, everything else as usual
     for n in [4usize, 5] {
         for (dp, evap) in [(1.0, 0.5), (5.0, 0.1)] {
@@ -386,7 +407,7 @@ pub fn run(rep: &mut Report) {
     rep.alpha("ant_system and max_min_ant_system templates (hook H2) and harness-assembled loops over AcoGeneration + AsPheromoneUpdate / MinMaxPheromoneUpdate: symmetric line instances with 3..5 cities incl. distance ratios of 10^6, ants 0..3 (>= 1 for max-min), alpha/beta in {0,1,2}, evaporation in {0,0.1,0.5,1}, two bound pairs");
     rep.alpha("sparse instances in which every tour is infeasible (infinite length); instances of 300 and 1100 (thorough 2100, 4200) cities, one execution each");
     rep.alpha("environment: default generator stream with at most one (thorough: menu of 19 words; quick: 8) replaced word at every draw position of the run; observer after every generation and around every pheromone update");
-    rep.assume("reference update: evaporate every trail by (1 - evaporation), then deposit 1/length symmetrically on the consecutive edges of the rewarded tours (ant system: the sampled tours, or all tours; max-min: one tour of minimal length), relative tolerance 1e-12; ties between equally long best tours accept a deposit on either");
+    rep.assume("reference update: evaporate every trail by (1 - evaporation), then deposit 1/length symmetrically on the consecutive edges of the rewarded tours (ant system: the sampled tours, or all tours; max-min: one tour of minimal length), tolerance 1e-12 relative to the trail's own magnitude (no absolute floor); ties between equally long best tours accept a deposit on either");
     let iters = if thorough { 4 } else { 3 };
     let menu: Vec<u64> = if thorough { MENU19.to_vec() } else { MENU8.to_vec() };
     let seeds: Vec<u64> = if thorough { vec![rep.seed, rep.seed + 1, rep.seed + 2] } else { vec![rep.seed] };
